@@ -1401,7 +1401,8 @@ class Pool:
                 yield worker
 
     def _worker_active(self, worker):
-        for job in self._cache.values():
+        # (a copy: the result handler removes finished jobs concurrently)
+        for job in list(self._cache.values()):
             if worker.pid in job.worker_pids():
                 return True
         return False
